@@ -231,6 +231,19 @@ def role_plugin(name, roles, **kw):
     return cls(name=name, roles=roles, **kw)
 
 
+class _SyncTasks:
+    """Stands in for the TaskHandler where ordering is not the subject: the task runs at once, on the calling thread."""
+
+    def submit_task(self, task, *args):
+        from concurrent.futures import Future
+        f = Future()
+        try:
+            f.set_result(task(*args))
+        except BaseException as ex:
+            f.set_exception(ex)
+        return f
+
+
 class Rig:
     """A real TriggerHandler + ConfigService + TracepointConfigService, fake push service and clock."""
 
@@ -269,6 +282,25 @@ class Rig:
 
     def install_triggers(self, triggers):
         self.handler.new_config(triggers)
+
+    # -- the same through the real TracepointConfigService (poll answer -> store -> listeners -> handler), with the
+    #    background task run at once on the calling thread
+    def install_via_service(self, tps):
+        from deepproto.proto.tracepoint.v1.tracepoint_pb2 import TracePointConfig
+        from deep.grpc import convert_response
+        if self.tps._task_handler is None:
+            self.tps.set_task_handler(_SyncTasks())
+        self._svc_version = getattr(self, '_svc_version', 0) + 1
+        msgs = [TracePointConfig(ID=t['id'], path=t['path'], line_number=t.get('line', 0), args=t.get('args', {}),
+                                 watches=t.get('watches', []), metrics=t.get('metrics', [])) for t in tps]
+        self.tps.update_new_config(self._svc_version, 'v%d' % self._svc_version, convert_response(msgs))
+
+    def register(self, tp):
+        """A tracepoint registered in code (Deep.register_tracepoint -> add_custom). Returns the registration id."""
+        if self.tps._task_handler is None:
+            self.tps.set_task_handler(_SyncTasks())
+        return self.tps.add_custom(tp['path'], tp.get('line', 0), dict(tp.get('args', {})), list(tp.get('watches', [])),
+                                   list(tp.get('metrics', [])))
 
     # -- the harness is the trace function
     def tracer(self, only_file=None):
